@@ -20,6 +20,9 @@ pub enum Script {
     Noop(Vec<u16>),
     /// double the state at one callback index (linear homogeneous problem, atol = 0)
     Double(u16),
+    /// answer XOut (dense output on demand) at generated callbacks / print equidistantly, with the solver's dense_output
+    /// flag default/true/false: same steps, valid interpolants, same interpolants as the Continue run
+    XOut { dense: Option<bool>, replies: Vec<(u16, f64)>, every: Option<f64> },
 }
 
 #[derive(Serialize, Deserialize, Clone, Debug)]
@@ -161,6 +164,10 @@ pub fn check(c: &Case) -> Outcome {
     let ncalls = base.recs.len();
     // ---- scripted behaviour
     match &c.script {
+        Script::XOut { dense, replies, every } => {
+            let x = crate::xoutrel::XCase { prob: c.prob.clone(), span: c.span.clone(), method: c.method, rtol: c.rtol, atol_rel: c.atol_rel, first_step: c.first_step, max_step: c.max_step, analytic_jac: c.analytic_jac, dense: *dense, replies: replies.clone(), every: *every };
+            crate::xoutrel::check(&x, crate::xoutrel::Aspect::All)
+        }
         Script::Interrupt(kk) => {
             let k = pick(*kk, ncalls);
             let h = match run_hist(c, &prob, atol, vec![(k, Act::Interrupt)]) {
@@ -280,7 +287,8 @@ fn decaying_real_spec(nmax: usize) -> BoxedStrategy<ProbSpec> {
 
 pub fn strategy() -> BoxedStrategy<Case> {
     let common = || (span_mid(), any_method(), fr(3.0, 8.0), fr(-3.0, 0.0), proptest::option::weighted(0.3, log10(-3.0, -0.5)), proptest::option::weighted(0.2, log10(-1.5, 0.0)), any::<bool>());
-    let general = (prob_spec(5, 0.5, 8.0), common(), prop_oneof![4 => any::<u16>().prop_map(Script::Interrupt), 4 => proptest::collection::vec(any::<u16>(), 1..5).prop_map(Script::Noop), 1 => Just(Script::Noop(vec![0]))]);
+    let general = (prob_spec(5, 0.5, 8.0), common(), prop_oneof![4 => any::<u16>().prop_map(Script::Interrupt), 4 => proptest::collection::vec(any::<u16>(), 1..5).prop_map(Script::Noop), 1 => Just(Script::Noop(vec![0])),
+        2 => (prop_oneof![Just(None), Just(Some(true)), Just(Some(false)), Just(Some(false))], proptest::collection::vec((any::<u16>(), prop_oneof![3 => fr(0.0, 0.3), 1 => Just(0.0), 1 => Just(2.0), 1 => fr(-0.5, 0.0), 1 => Just(1e300)]), 0..5), proptest::option::weighted(0.5, fr(0.02, 0.4))).prop_map(|(dense, replies, every)| Script::XOut { dense, replies, every })]);
     let lin = (decaying_real_spec(4), common(), any::<u16>().prop_map(Script::Double));
     let mk = |(prob, (span, method, re, ar, first_step, max_step, analytic_jac), script): (ProbSpec, (Span, Meth, f64, f64, Option<f64>, Option<f64>, bool), Script)| Case {
         prob,
@@ -324,7 +332,7 @@ pub fn run(ctx: &Ctx, known: &[Known]) -> Report {
     let stats = run_generated(ctx, "C19", "gen", &strategy, &check, cases, known);
     Report {
         id: "C19".into(),
-        rule: "histories = one of the six low-level solvers driven directly with a recording SolOut on a closed-form problem (both directions, tolerances 1e-3..1e-8, optional first_step/max_step, analytic or FD Jacobian), first undisturbed, then with a scripted callback: Interrupt at a generated callback index (0 = initial call), ModifiedSolution with an untouched state at 1..4 generated indices, or doubling of the state at one index (independent real linear modes, atol = 0). Non-trivial = a non-Continue flag returned at a callback index >= 1. Distinct = distinct canonical JSON.".into(),
+        rule: "histories = one of the six low-level solvers driven directly with a recording SolOut on a closed-form problem (both directions, tolerances 1e-3..1e-8, optional first_step/max_step, analytic or FD Jacobian), first undisturbed, then with a scripted callback: Interrupt at a generated callback index (0 = initial call), ModifiedSolution with an untouched state at 1..4 generated indices, or doubling of the state at one index (independent real linear modes, atol = 0), or XOut answers (generated abscissae at generated callbacks, or equidistant printing) with the solver's dense_output flag default/true/false, compared with the Continue run (same steps bit for bit, interpolants valid at both ends and identical inside). Non-trivial = a non-Continue flag returned at a callback index >= 1. Distinct = distinct canonical JSON.".into(),
         assumptions: vec![
             "interpolant end-point agreement to 1e-10*(1+|y|)".into(),
             "BDF restarts its history on ModifiedSolution (documented): only agreement with the exact solution is required for BDF no-op, and for Radau/BDF doubling".into(),
